@@ -104,13 +104,16 @@ class Slicer:
                     if isinstance(t, ast.Name):
                         self.loop_roots.add(t.id)
             p = self.pm.get(p)
-        self.at_line = getattr(at, "lineno", 10 ** 9)
+        from .core import order_key
+
+        self._ok = order_key
+        self.at_line = order_key(at)
         self.binds: Dict[str, List[ast.expr]] = {}
         self._collect()
 
     def _visible(self, n) -> bool:
         """bindings that can reach the store: textually before it, or inside a loop that encloses it"""
-        if getattr(n, "lineno", 0) <= self.at_line:
+        if self._ok(n) <= self.at_line:
             return True
         return any(any(x is n for x in ast.walk(l)) for l in self.loops_enclosing)
 
